@@ -82,7 +82,7 @@ var (
 		Methods:  allEngineMethods,
 		MinRules: 1, MaxRules: 6, SalSpan: 2,
 		Secs: map[int]int{SecY: 2, SecCall: 2, SecAsgCall: 1, SecAsgKind: 2, SecDiv: 2, SecIdx: 2, SecNil: 2, SecUnknown: 2, SecArg: 2,
-			SecIfKind: 2, SecIfIdx: 2, SecIfNil: 2, SecElif: 2, SecForKind: 2, SecForStep: 1, SecUnb: 1, SecUnbCont: 1, SecConc: 2, SecIfCall: 2, SecForRange: 2, SecMapIdx: 2, SecSetKind: 2, SecSetNil: 2, SecThreeNil: 2, SecIfThreeNil: 2, SecArgCount: 1, SecNilMapSet: 2, SecFuncCall: 2, SecIfFunc: 2, SecThreeSet: 2, SecFnArgKind: 2, SecFnArgCount: 1, SecLocStruct: 1, SecElifCall: 2, SecForAcc: 1, SecRangeGrow: 2},
+			SecIfKind: 2, SecIfIdx: 2, SecIfNil: 2, SecElif: 2, SecForKind: 2, SecForStep: 1, SecUnb: 1, SecUnbCont: 1, SecConc: 2, SecIfCall: 2, SecForRange: 2, SecMapIdx: 2, SecSetKind: 2, SecSetNil: 2, SecThreeNil: 2, SecIfThreeNil: 2, SecArgCount: 1, SecNilMapSet: 2, SecFuncCall: 2, SecIfFunc: 2, SecThreeSet: 2, SecFnArgKind: 2, SecFnArgCount: 1, SecLocStruct: 1, SecElifCall: 2, SecForAcc: 1, SecRangeGrow: 2, SecThreeSetLoc: 2},
 		MaxSecs: 4, Rets: []int{RetNone, RetNestedV, RetKind, RetTopKind, RetTop, RetUnexp},
 		FaultPct: 75, GatePct: 10, RetPct: 50, MinCalls: 4, MaxCalls: 12, UnknownNamePct: 15, BadNMPct: 15, LongHistPct: 3,
 	}
@@ -141,7 +141,7 @@ var (
 	}
 	ProfC06 = &Profile{
 		MinRules: 1, MaxRules: 4, SalSpan: 1,
-		Secs:    map[int]int{SecY: 4, SecEcho: 4, SecOpt: 3, SecCall: 1, SecLocal: 2, SecReader: 1, SecIfNil: 1, SecIfKind: 1, SecFnArgKind: 1, SecApiSet: 2, SecForAcc: 1},
+		Secs:    map[int]int{SecY: 4, SecEcho: 4, SecOpt: 3, SecCall: 1, SecLocal: 2, SecReader: 1, SecIfNil: 1, SecIfKind: 1, SecFnArgKind: 1, SecApiSet: 2, SecForAcc: 1, SecOptFn: 3},
 		MaxSecs: 4, Rets: []int{RetNone, RetReq, RetReq, RetNestedV},
 		FaultPct: 20, GatePct: 60, RetPct: 70, UnknownNamePct: 10, BadNMPct: 5,
 	}
